@@ -209,6 +209,21 @@ func genKeyGrid(r *rng, n int, p func(string, ...any)) {
 			}
 		}
 	}
+	// OKP keys whose x / d have the other natural Ed25519 sizes (64-byte private key, 57-byte Ed448)
+	for _, crv := range []int64{6, 7, 4} {
+		for _, lx := range []int{-1, 32, 64, 57, 31} {
+			for _, ld := range []int{-1, 32, 64, 57, 33} {
+				k := &keyFields{kty: wInt(1), crv: wInt(crv)}
+				if lx >= 0 {
+					k.x = wBstr(r.bytes(lx))
+				}
+				if ld >= 0 {
+					k.d = wBstr(r.bytes(ld))
+				}
+				p("keyuse %s", hexs(k.wire(nil).enc()))
+			}
+		}
+	}
 	// type confusion at every field
 	bads := []*W{wTstr("a"), wBstr([]byte{1}), wNull(), wBool(true), wArr(), wMap(), wInt(1), wInt(-1), {M: 7, HW: 8, N: 0x3ff0000000000000}, {M: 1, HW: 8, N: 1 << 63}, wTag(2, wBstr([]byte{1}))}
 	for fi := 0; fi < 9; fi++ {
